@@ -64,7 +64,7 @@ def strategy(tier):
                             a["expr"] = ["bin", "+", a["expr"], ["var", nm]]
         need = [X.deriv_name(s["name"]) for s in model["states"]]
         pts = G.draw_points(draw, model, 2, need)
-        return {"model": model, "points": pts, "split": draw(st.sampled_from(comps)), "backend": draw(st.sampled_from(["numpy", "numpy", "C", "C", "jax"])), "dt": 0.01, "c_probe": draw(st.integers(0, 7)) == 0}
+        return {"model": model, "points": pts, "split": draw(st.sampled_from(comps)), "backend": draw(st.sampled_from(["numpy", "numpy", "C", "C", "jax"])), "dt": 0.01, "c_probe": draw(st.integers(0, 7)) == 0, "permute": draw(st.booleans())}
 
     return _s()
 
@@ -138,9 +138,18 @@ def check_case(case):
     counters = {}
     n_ok = 0
     mods = {}
+    # the mapping handed to get_code(missing_values=...) is the caller's: use the other side's
+    # missing index, or (case["permute"]) the same names with the slots reversed
+    wanted = {}
+    for label, o, sub, other in sides:
+        mv = dict(other.missing_variables)
+        if case.get("permute") and len(mv) > 1:
+            n = len(mv)
+            mv = {k: n - 1 - v for k, v in mv.items()}
+        wanted[label] = mv
     for label, o, sub, other in sides:
         try:
-            mods[label] = build(backend, o, other.missing_variables, sub)
+            mods[label] = build(backend, o, wanted[label], sub)
         except GenError as ex:
             raise Violation(f"C13:{backend}:{label}:{ex.signature()}", dict(ctx, error=str(ex)[:800], code=ex.code))
     deep_export = False
@@ -175,7 +184,7 @@ def check_case(case):
             exp_fe = {k: v for k, v in fullcheck.expected_scheme(model, pt, case["dt"], "explicit_euler").items() if k in own_states}
             n_ok += fullcheck.compare_slots("C13", mod, "explicit_euler", "state", exp_fe, sub_pt, dt=case["dt"], missing=miss, counters=counters, ctx=c2, K=256, call_kw=kw)
             # (d) missing_values for the other side
-            want_idx = other.missing_variables
+            want_idx = wanted[label]
             if want_idx:
                 if not mod.has("missing_values"):
                     raise Violation(f"C13:{backend}:{label}:missing_values-not-generated", c2)
